@@ -181,6 +181,7 @@ func (tr *transport) serve() error {
 			}
 
 			if err := tr.send(c); err != nil {
+				c.err = err
 				c.done()
 				return err
 			}
